@@ -200,15 +200,22 @@ VALID_TRUE = [('empty_str', ''), ('empty_list', []), ('at', '@')]
 ROLES = ['r1', 'r2']
 
 
-def _dump(value, fmt):
+def _doc(value, fallback):
     doc = {'p': value, 'other': 'role:r2'}
+    if fallback == 'default-rule':
+        doc['default'] = '@'        # what an undefined name falls back to
+    return doc
+
+
+def _dump(value, fmt, fallback='none'):
+    doc = _doc(value, fallback)
     if fmt == 'json':
         return json.dumps(doc, default=lambda o: sorted(o) if isinstance(
             o, (set, frozenset)) else str(o))
     return yaml.safe_dump(doc)
 
 
-def run_values(ctx, vi, via):
+def run_values(ctx, vi, via, fallback='none'):
     from oslo_policy import policy
     common.set_ctx(ctx)
     name, value = (VALUES + VALID_TRUE)[vi]
@@ -218,9 +225,9 @@ def run_values(ctx, vi, via):
     creds = {'roles': ctx.roles('role', ROLES)}
     try:
         if via == 'dict':
-            rules = policy.Rules.from_dict({'p': value, 'other': 'role:r2'})
+            rules = policy.Rules.from_dict(_doc(value, fallback), 'default')
         else:
-            rules = policy.Rules.load(_dump(value, via))
+            rules = policy.Rules.load(_dump(value, via, fallback), 'default')
     except Exception as exc:
         ctx.observe('load', 'raises')
         ctx.cover('values:rejected-at-load')
@@ -228,7 +235,13 @@ def run_values(ctx, vi, via):
                     detail={'value': name, 'via': via, 'exc': repr(exc)})
         return
     ctx.observe('load', 'ok')
-    enf = common.mk_enforcer(rules=rules)
+    enf = common.mk_enforcer(rules=rules, default_rule='default')
+    if fallback == 'registered-default':
+        # a permissive registered default must not take over either
+        enf.register_default(policy.RuleDefault('p', '@'))
+        for d in enf.registered_rules.values():
+            if d.name not in enf.rules:
+                enf.rules[d.name] = d.check
     try:
         got = bool(enf.enforce('p', {}, creds))
     except Exception as exc:
@@ -251,8 +264,9 @@ def run_values(ctx, vi, via):
 
 def cubes_values(tier, seed):
     n = len(VALUES) + len(VALID_TRUE)
-    return [{'vi': i, 'via': via} for i in range(n)
-            for via in ('dict', 'json', 'yaml')]
+    return [{'vi': i, 'via': via, 'fallback': fb} for i in range(n)
+            for via in ('dict', 'json', 'yaml')
+            for fb in ('none', 'default-rule', 'registered-default')]
 
 
 # -- lists of odd strings ------------------------------------------------------
